@@ -19,6 +19,7 @@ import (
 	"time"
 
 	"github.com/flynn/noise"
+	nebula "github.com/slackhq/nebula"
 	"github.com/slackhq/nebula/cert"
 	ct "github.com/slackhq/nebula/cert_test"
 	"github.com/slackhq/nebula/handshake"
@@ -31,6 +32,7 @@ func init() {
 	hx.Register("noise_c07", runNoiseC07)
 	hx.Register("noise_c06", runNoiseC06)
 	hx.Register("noise_c05", runNoiseC05)
+	hx.Register("noise_mgr", runNoiseMgr)
 }
 
 // ---- identities ---------------------------------------------------------------------------------
@@ -85,6 +87,7 @@ const (
 	nS
 	nC
 	nD
+	nN
 )
 
 func nSuite(dh noise.DHFunc, cipher uint64) noise.CipherSuite {
@@ -191,6 +194,7 @@ func newNoiseWorld(curve cert.Curve) *nWorld {
 	w.ids = append(w.ids, idS)
 	mk("C", 8, "10.0.0.8/24", false, true, ca2, ca2Key, before, after, true) // good, v2 only
 	mk("D", 9, "10.0.0.9/24", true, false, ca2, ca2Key, before, after, true) // good, v1 only
+	mk("N", 10, "10.0.0.10/24", true, true, ca2, ca2Key, before, after, true) // good, v1 + v2: the node behind the HandshakeManager
 	w.accept = "[" + strings.Join(accept, "; ") + "]"
 	w.fullA = nMust(aV2.cert.Marshal())
 	w.bodies[string(w.fullA)] = nBodyInfo{id: 7012, ver: 2, hasKey: true}
@@ -1188,4 +1192,163 @@ func runNoiseC05(c *hx.Ctx) {
 		noiseEmitC05(cw, s, kind, completed, &budget)
 	}
 	cw.Close("adversary script in which at least one machine completed")
+}
+
+// ---- C05 through the HandshakeManager ------------------------------------------------------------------------
+
+// a machine that lives inside the node's HandshakeManager: only what the manager lets out is observed
+func (s *nScript) mgrMach(initiator bool, dv cert.Version, cipher uint64) int {
+	s.ms = append(s.ms, &nMach{w: s.w, id: s.w.ids[nN], initiator: initiator, ver: dv, cipher: cipher, now: 1})
+	return len(s.ms) - 1
+}
+
+func (s *nScript) mgrObs(q int, reply []byte, tun *nebula.VerifNMTunnel, peerStatic []byte) nObs {
+	w, nm := s.w, s.ms[q]
+	var o nObs
+	o.class = 7
+	if reply != nil {
+		nm.out = append([]byte(nil), reply...)
+		var h header.H
+		if e := h.Parse(reply); e != nil {
+			panic(e)
+		}
+		o.hasOut = true
+		o.out = [4]uint64{uint64(h.Subtype), uint64(h.RemoteIndex), h.MessageCounter, uint64(len(reply) - header.Len)}
+		nm.paylen = len(reply) - header.Len - 2*w.dl - 32
+	}
+	if tun != nil {
+		o.class = 2
+		o.hasRes = true
+		r := &o.res
+		if tun.PeerCert != nil {
+			cc := tun.PeerCert.Certificate
+			if hb, e := cc.MarshalForHandshakes(); e == nil {
+				r.body = w.bodies[string(hb)].id
+			}
+			r.key = w.keys[string(cc.PublicKey())]
+			r.keyStatic = bytes.Equal(cc.PublicKey(), peerStatic)
+			// an independent, full trust check (signature over the details including the public key, CA, validity, blocklist)
+			_, err := w.pool.VerifyCertificate(time.Now(), cc)
+			r.verified = err == nil
+		}
+		r.ridx, r.lidx, r.msgidx, r.initiator = uint64(tun.RemoteIndex), uint64(tun.LocalIndex), tun.Counter, tun.Initiator
+		if tun.MyCert != nil {
+			r.mycert = w.certOf[tun.MyCert]
+		}
+		nm.alloc = uint64(tun.LocalIndex)
+		nm.eCS, nm.dCS = tun.EKey, tun.DKey
+		nm.res = &handshake.Result{}
+	} else if reply != nil {
+		o.class = 2
+	}
+	return o
+}
+
+// hands the packet of machine src (possibly a peer's real Machine) to the node; q is the node-side machine it is for
+func (s *nScript) mgrDeliver(node *nebula.VerifNMNode, q, src int, peerStatic []byte) nObs {
+	wr := s.wGenuine(src)
+	reply, tun := node.Incoming(wr.bytes, 1+src%200)
+	o := s.mgrObs(q, reply, tun, peerStatic)
+	tag := fmt.Sprintf("(Noise_corr.TVerbatim %d%%nat)", src)
+	s.add(fmt.Sprintf("Noise_corr.ADeliver %d%%nat %s", q, wr.lit), o, tag,
+		map[string]any{"op": "deliver-to-node", "to": q, "from": src, "who": s.ms[src].id.name, "obs": o.json()})
+	return o
+}
+
+func runNoiseMgr(c *hx.Ctx) {
+	cw := c.NewCaseWriter(nImports, "Noise_corr.c05case", "Noise_corr.check_c05", 40)
+	worlds := []*nWorld{newNoiseWorld(cert.Curve_CURVE25519), newNoiseWorld(cert.Curve_P256)}
+	ciphers := []string{"chachapoly", "aes"}
+	for n := 0; n < c.N; n++ {
+		w := worlds[n%2]
+		cipher := uint64((n / 2) % 2)
+		idN := w.ids[nN]
+		dv := cert.Version2
+		node := nebula.VerifNMNew(w.pool, dv, idN.creds[cert.Version1].cert, idN.creds[cert.Version2].cert, w.curve, idN.creds[cert.Version2].priv, ciphers[cipher])
+		s := &nScript{w: w}
+		victim := w.ids[nA]
+		victimAddr := netip.MustParseAddr("10.0.0.1")
+		staticOf := func(m *nMach) []byte { return m.id.creds[m.ver].cert.PublicKey() }
+		// a handshake of `id` as initiator towards the node
+		inbound := func(id *nIdent, v cert.Version) bool {
+			p := len(s.ms)
+			s.ms = append(s.ms, w.newMach(id, v, true, cipher, nNonZero(c), false))
+			q := s.mgrMach(false, dv, cipher)
+			s.init(p)
+			o := s.mgrDeliver(node, q, p, staticOf(s.ms[p]))
+			if o.hasOut {
+				s.deliverV(p, q)
+			}
+			return o.hasRes
+		}
+		// a handshake the node starts towards addr, answered by a machine of identity `id`
+		outbound := func(addr netip.Addr, id *nIdent, v cert.Version) bool {
+			q := s.mgrMach(true, dv, cipher)
+			stage0 := node.Start(addr, 7)
+			var o nObs
+			if stage0 == nil {
+				o.class = 7
+				s.add(fmt.Sprintf("Noise_corr.AInit %d%%nat", q), o, "Noise_corr.TNone", map[string]any{"op": "node-start", "obs": o.json()})
+				return false
+			}
+			nm := s.ms[q]
+			nm.out = append([]byte(nil), stage0...)
+			var h header.H
+			_ = h.Parse(stage0)
+			o.class, o.hasOut = 2, true
+			o.out = [4]uint64{uint64(h.Subtype), uint64(h.RemoteIndex), h.MessageCounter, uint64(len(stage0) - header.Len)}
+			nm.paylen = len(stage0) - header.Len - 2*w.dl
+			if pl, e := handshake.UnmarshalPayload(stage0[header.Len+2*w.dl:]); e == nil {
+				nm.now, nm.alloc = pl.Time, uint64(pl.InitiatorIndex)
+			}
+			s.add(fmt.Sprintf("Noise_corr.AInit %d%%nat", q), o, "Noise_corr.TNone", map[string]any{"op": "node-start", "to": addr.String(), "obs": o.json()})
+			r := len(s.ms)
+			s.ms = append(s.ms, w.newMach(id, v, false, cipher, nNonZero(c), false))
+			or := s.deliverV(r, q)
+			done := false
+			if or.hasOut {
+				done = s.mgrDeliver(node, q, r, staticOf(s.ms[r])).hasRes
+			}
+			node.Abandon(addr)
+			return done
+		}
+		established := n%5 != 4 // mostly: first a genuine tunnel with the victim, so that the hostmap caches its certificate
+		if established {
+			if c.Chance(0.5) {
+				inbound(victim, cert.Version2)
+			} else {
+				outbound(victimAddr, victim, cert.Version2)
+			}
+		}
+		type who struct {
+			id  int
+			v   cert.Version
+			out bool
+		}
+		plan := []who{{nM, cert.Version2, false}, {nM, cert.Version2, true}, {nS, cert.Version2, false}, {nS, cert.Version2, true},
+			{nX, cert.Version2, false}, {nK, cert.Version2, false}, {nU, cert.Version2, false}, {nA, cert.Version2, false}, {nA, cert.Version2, true},
+			{nA, cert.Version1, false}, {nB, cert.Version2, false}, {nX, cert.Version2, true}, {nK, cert.Version2, true}, {nU, cert.Version2, true}}
+		c.Rng.Shuffle(len(plan), func(i, j int) { plan[i], plan[j] = plan[j], plan[i] })
+		completions := 0
+		for _, pl := range plan[:3+c.Intn(5)] {
+			id := w.ids[pl.id]
+			var ok bool
+			if pl.out {
+				// the node dials the address the presented certificate is for
+				addr := netip.MustParseAddr(fmt.Sprintf("10.0.0.%d", map[int]int{nM: 1, nS: 1, nA: 1, nX: 4, nK: 5, nU: 3}[pl.id]))
+				ok = outbound(addr, id, pl.v)
+			} else {
+				ok = inbound(id, pl.v)
+			}
+			if ok {
+				completions++
+			}
+		}
+		kind := "mgr/fresh"
+		if established {
+			kind = "mgr/victim-tunnel-established-first"
+		}
+		s.emitAs(cw, "Noise_corr.C5Strict", kind, completions > 0, nil)
+	}
+	cw.Close("history through the real HandshakeManager in which the node completed at least one of the later handshakes")
 }
